@@ -323,3 +323,25 @@ define void @g(i32 %a, i32 %b) {
 !10 = distinct !DISubprogram(name: "g", scope: !2, file: !2, line: 2, type: !3, spFlags: DISPFlagDefinition, unit: !1)
 !8 = !DILocalVariable(name: "y", scope: !10, file: !2, line: 2, type: !6)
 !9 = !DILocation(line: 2, scope: !10)
+;;; ATOM md/di-enum-integers
+!llvm.dbg.cu = !{!1}
+!llvm.module.flags = !{!8}
+!named = !{!0, !2, !3, !6}
+!0 = !DIBasicType(name: "t", size: 32, encoding: 200)
+!1 = distinct !DICompileUnit(language: 40000, file: !7, emissionKind: 2, nameTableKind: 1)
+!2 = !DISubroutineType(cc: 1, types: !{})
+!3 = !DISubprogram(name: "f", virtuality: 2)
+!6 = !DIStringType(name: "s", encoding: 77)
+!7 = !DIFile(filename: "a.c", directory: "/")
+!8 = !{i32 2, !"Debug Info Version", i32 3}
+;;; ATOM md/di-subprogram-distinct-declaration
+!llvm.module.flags = !{!8}
+!named = !{!0, !1, !2}
+!0 = distinct !DISubprogram(name: "f", spFlags: 0)
+!1 = distinct !DISubprogram(name: "g", isDefinition: false)
+!2 = !DISubprogram(name: "h", spFlags: 0)
+!8 = !{i32 2, !"Debug Info Version", i32 3}
+;;; ATOM md/names-like-node-keywords
+@g = global i32 0, !DIFile !0
+!DILocation = !{!0}
+!0 = !{}
